@@ -190,7 +190,7 @@ Proof. unfold s_shamir. repeat constructor; lia. Qed.
 
 (* nv = number of value words (13 for 128 bits, 26 for 256 bits) *)
 Lemma share_indices_digs s nv : share_wf s ->
-  10 - sh_bits s mod 10 + sh_bits s = 10 * Z.of_nat nv ->
+  (- sh_bits s) mod 10 + sh_bits s = 10 * Z.of_nat nv ->
   let a := header (sh_id s) (sh_exp s) (sh_gi s) (sh_gt s) (sh_gc s) (sh_mi s) (sh_mt s)
            * 1024 ^ Z.of_nat nv + sh_value s in
   share_indices s = digs (4 + nv) a ++ rs1024_create_checksum s_shamir (digs (4 + nv) a).
@@ -215,7 +215,7 @@ Qed.
 (* ------------------------------------------------------------------ round trip *)
 
 Lemma roundtrip_gen s nv : share_wf s ->
-  10 - sh_bits s mod 10 + sh_bits s = 10 * Z.of_nat nv ->
+  (- sh_bits s) mod 10 + sh_bits s = 10 * Z.of_nat nv ->
   (Z.of_nat (4 + nv + 3) - 7) * 10 / 16 * 16 = sh_bits s ->
   share_of_indices (share_indices s) = Ok s /\
   length (share_indices s) = (4 + nv + 3)%nat /\
@@ -260,6 +260,9 @@ Proof.
   rewrite field_id, field_e, field_gi, field_gt, field_gc, field_mi, field_mt by assumption.
   replace (bits <? 0) with false by (destruct Hb as [-> | ->]; reflexivity).
   replace (bits <? 128) with false by (destruct Hb as [-> | ->]; reflexivity).
+  replace ((Z.of_nat (4 + nv + 3) - 7) * 10 - bits >? 8) with false.
+  2:{ symmetry. destruct (Z.gtb_spec ((Z.of_nat (4 + nv + 3) - 7) * 10 - bits) 8) as [G|G]; [|reflexivity].
+      exfalso. destruct Hb as [E | E]; rewrite E in Hpb, G; dm. }
   rewrite shr_div by lia. rewrite Z.div_small by lia. cbn [Z.eqb negb].
   exact Hmk.
 Qed.
